@@ -165,6 +165,9 @@ def coq_eval_files(files, timeout=900):
             with open(p, "w") as f:
                 f.write(text)
             rc, out, err, dt = run(["coqc", "-R", THEORIES, "Bandit", "-Q", d, "Cases", p], cwd=d, timeout=timeout)
+            if rc == 124:
+                # a shard that ran out of time on a loaded machine gets one more, longer, attempt before it counts as broken
+                rc, out, err, dt = run(["coqc", "-R", THEORIES, "Bandit", "-Q", d, "Cases", p], cwd=d, timeout=4 * timeout)
             return name, rc, out, err
         with cf.ThreadPoolExecutor(max_workers=NCPU) as ex:
             return list(ex.map(one, files))
